@@ -220,6 +220,18 @@ func TestVerifC14(t *testing.T) {
 		save(c, "write")
 	})
 	s.TmpInDstDir()
+	// two goroutines saving at once: configuration.write serialises them with
+	// the configuration lock; whatever the interleaving, only complete versions
+	// may ever be published
+	s.Case("concurrent-writes", conf, nil, []string{"home", "config-write", "dst-present", "tmp-in-dstdir"}, func(c *verifc14.Case) {
+		want := c14Encode(t)
+		for k := 0; k < 3; k++ {
+			c.SaveConcurrent(fmt.Sprintf("pair-%d", k), []verifc14.Job{
+				{Want: want, F: func() error { return config.write(nil) }},
+				{Want: want, F: func() error { return config.write(nil) }},
+			})
+		}
+	})
 	s.Case("successive", conf, nil, []string{"home", "config-write", "dst-present", "tmp-in-dstdir", "multi-save"}, func(c *verifc14.Case) {
 		for k := 0; k < 6; k++ {
 			config.UserRules = append(config.UserRules, fmt.Sprintf("||successive-%d.example^", k))
